@@ -90,6 +90,8 @@ def cases(tier: str, seed: int) -> list[dict]:
                                        {"base": 0, "fill": "intfill"}][rep % 4], edges=rep % 2 == 1)
             elif conv == "cf1d":
                 w = GW.structured_world(conv, 2, 3, bounds=rep % 2 == 0)
+            elif conv == "cf2d" and rep % 2 == 0:
+                w = GW.structured_world(conv, 3, 3, shape="rect", bounds=False, holes=[(1, 0), (1, 2)])     # a flanked cell
             else:
                 w = GW.structured_world(conv, 2, 3, shape="skew", holes=[(0, 0)] if rep % 2 else None)
             CD.add_data_vars(w, rng, packed=True)
@@ -146,6 +148,8 @@ def execute(case: dict) -> dict:
         tdim["coord"]["encoding"]["dtype"] = "int32"
     from .. import viafile
     ds = viafile.hold_ds(w, W.build(w))
+    _before = CD.snapshot(ds)
+    _ds_in = ds
     e.setdefault("onestep", -1)
     if e["onestep"] >= 0:
         # one time step selected first: the time coordinate becomes a scalar (dimensionless) coordinate
@@ -178,6 +182,7 @@ def execute(case: dict) -> dict:
                 "vars": [CD.proj_array(n, r[n]) for n in r.data_vars if n in specs]}
     e["obs"] = outcome(run)
     rec["events"].append(e)
+    rec["input"] = {"before": _before, "after": CD.snapshot(_ds_in)}
     return rec
 
 
